@@ -155,6 +155,10 @@ def cases(tier, seed, shard, nshards):
     for k in range(4 if tier == "quick" else 6):
         if k % nshards == shard:
             yield big_case(k)
+    if tier != "quick":     # seeded server-driven sequences (before the bulk, so a time-budget stop cannot skip them)
+        srng = random.Random(f"{seed}:C13:server:{shard}")
+        for j in range(12):
+            yield server_case(srng, tier, srng.randrange(1000))
     for k, count, nh, eol, framing, pipelined in interim_schedule():
         if k % nshards != shard:
             continue
@@ -180,9 +184,6 @@ def cases(tier, seed, shard, nshards):
         seq = G.gen_sequence(rng, kind, maxtotal=maxtotal, maxbody=maxbody, eol=eol, interim="random")
         yield {"kind": kind, "origin": "gen", "msgs": seq, "rand": _plan(rng, seq, tier),
                "req_method": seq[0].get("req_method", "GET")}
-    if tier != "quick":
-        for j in range(12):
-            yield server_case(rng, tier, rng.randrange(1000))
 
 
 # --------------------------------------------------------------------------
